@@ -71,6 +71,28 @@ def hint_session(rng, conf, idx=None):
     lines += ["drop_all", rng.choice(["unmount", "dropfs"]), "mount 1 0 lossy", "stats", "unmount"]
     return head + lines
 
+def free_only_session(rng, conf):
+    """a mount session that only allocates, then one that only frees (remove / truncate), each ended by unmount:
+    the FS-info sector written by the second one must carry the grown count"""
+    g = geom_of(conf)
+    head = ["dev %d 0" % conf[1], "wlog 0", conf[2], "pages", "wlog 1", "mount 1 0 lossy", "stats"]
+    lines = []
+    names = []
+    for k in range(rng.range(2, 4)):
+        nm = "keep%d.bin" % k; names.append(nm)
+        lines += ["create_file 0 %s %d" % (hexs(nm), k + 1), "write_pat %d %d %d" % (k + 1, rng.range(2, 12) * g.cluster_size + rng.range(0, 9), k),
+                  "drop_file %d" % (k + 1)]
+    lines += ["stats", "drop_all", "unmount", "mount 1 0 lossy"]
+    how = rng.below(3)
+    if how == 0:
+        lines += ["remove 0 %s" % hexs(names[0])]
+    elif how == 1:
+        lines += ["open_file 0 %s 9" % hexs(names[0]), "seek 9 start %d" % rng.range(0, g.cluster_size), "truncate 9", "drop_file 9"]
+    else:
+        lines += ["remove 0 %s" % hexs(n) for n in names]
+    lines += ["drop_all", rng.choice(["unmount", "dropfs"]), "mount 1 0 lossy", "stats", "unmount"]
+    return head + lines
+
 def _unused():
     lines = []
     if rng.chance(1, 2):
@@ -100,6 +122,8 @@ def run(rep, tier, seed):
             scripts.append(out + ["stats", "drop_all", "unmount"])
     for i in range(12 if tier == "quick" else 120):
         scripts.append(hint_session(rng, [c for c in confs if c[0].startswith("fat32")][i % 2], i // 2))
+    for i in range(6 if tier == "quick" else 80):
+        scripts.append(free_only_session(rng, [c for c in confs if c[0].startswith("fat32")][i % 2]))
     judged = sessions.run_judged(scripts, flags=("infos",), shards=16)
     nstats = 0; nnospace = 0; nunmount32 = 0
     for jd in judged:
